@@ -25,7 +25,7 @@ META = {
                   "dict.pop, dict.__setitem__, next(itertools.count()); one model step abstracts several source lines (issue = seq+register+send).",
     "technique": "Coq inductive invariants over an unbounded-thread transition system; generated program tie; trace validation of real threads (virtual scheduler) against the extracted model",
     "gen": ["serve", "stream", "protocol"],
-    "shapes": ["serve.*", "stream.Stream.poll", "protocol.Connection.serve", "protocol.Connection._dispatch", "protocol.Connection._dispatch_response", "protocol.Connection._seq_request_callback", "protocol.Connection._async_request",
+    "shapes": ["serve.*", "stream.Stream.poll", "protocol.Connection.__init__", "protocol.Connection._get_seq_id", "protocol.Connection.serve", "protocol.Connection._dispatch", "protocol.Connection._dispatch_response", "protocol.Connection._seq_request_callback", "protocol.Connection._async_request",
                "protocol.Connection._get_seq_id", "protocol.Connection.sync_request", "protocol.Connection.async_request"],
     "models": ["serve"],
     "model_files": ["Serve"],
@@ -256,7 +256,7 @@ def scenario(n_clients, with_bg, answer_order, chooser, sync_timeout=2.0, timeou
             out["schedule"] = S.run(chooser)
         except Deadlock as e:
             out["deadlock"] = str(e)
-            out["deadlock_blocked"] = {str(t): S.blocked.get(t, (None, None, ""))[2] for t in S.sem if t not in S.done}
+            out["deadlock_blocked"] = {str(t): v for t, v in getattr(S, "blocked_at_deadlock", {}).items()}
             if stop["bg"] is not None:
                 stop["bg"]._active = False
         out["clock"] = clock
@@ -415,7 +415,9 @@ def oracle13_nodeadline(ctx, case, out, n_clients):
     if out["deadlock"]:
         bl = out.get("deadlock_blocked", {})
         stuck = [i for i in range(n_clients) if i not in out["return_time"]]
-        dispatched = all(out["dispatch_count"].get(out["seq_of"].get(i)) == 1 for i in stuck if i in out["seq_of"])
+        # the known shape: EVERY stuck client's request was answered and its reply dispatched exactly once (a request the peer never saw,
+        # or a reply never dispatched, is a different failure and must not hide behind the known finding)
+        dispatched = all(i in out["seq_of"] and out["dispatch_count"].get(out["seq_of"][i]) == 1 for i in stuck)
         in_window = bool(stuck) and dispatched and not out["inq_left"] and any(bl.get(str(i)) == "poll" for i in stuck) \
             and all(bl.get(str(i)) in ("poll", "cond-wait") for i in stuck)
         if in_window:
